@@ -75,6 +75,7 @@ func newGenerateCommand() *cobra.Command {
 			completedChannel := make(chan error)
 			go dedupLoop(configOverrides, watcher, completedChannel)
 
+			verifhook.Point("watch.add")
 			err = watcher.Add(".")
 			if err != nil {
 				log.Fatal().Err(err).Msg("")
